@@ -283,9 +283,11 @@ struct RefRR {
 
 static const unsigned kTypes[4] = {RFC1035_TYPE_A, RFC1035_TYPE_AAAA, RFC1035_TYPE_PTR, RFC1035_TYPE_CNAME};
 
+static bool onlyRootPointer = false;     // set by c37_known_root_pointer only
 static void faithful(const unsigned maxRR, const unsigned maxLabels, const unsigned maxQLen, const unsigned maxLabelLen, const unsigned maxExtra)
 {
     vf_quiet();
+    bool rootPointer = false;            // some name of this message is <label> + pointer to a root name
     unsigned char b[160];
     unsigned n = 0;
     // header
@@ -311,10 +313,11 @@ static void faithful(const unsigned maxRR, const unsigned maxLabels, const unsig
         else if (r.ownerMode == 1) { r.owner = qname; n += encodeName(b + n, r.owner, 0, qnameAt); }
         else {
             // <own label> + pointer to the second label of the question name (or to the whole name if it has < 2 labels)
-            // KNOWN-FINDING candidate: <label(s)> followed by a compression pointer to a ROOT name decodes as "label." (with a
-            // trailing dot; rfc1035NameUnpack leaves the '.' it appended when the pointed-at name adds nothing), whereas
-            // the same name spelled out decodes as "label". Excluded here: pointers are only taken to non-root names.
-            vf_assume(qname.nlabels >= 1);
+            // KNOWN FINDING C37-root-pointer-trailing-dot: <label(s)> followed by a compression pointer to a ROOT name decodes
+            // as "label." (with a trailing dot; rfc1035NameUnpack leaves the '.' it appended when the pointed-at name adds
+            // nothing), whereas the same name spelled out decodes as "label". The class is examined by its own entry
+            // (c37_known_root_pointer, listed in known_findings.json); every other entry excludes exactly this class (below).
+            if (qname.nlabels == 0) rootPointer = true;
             RefName first = symbolicName(1, maxLabelLen, "olabels");
             vf_assume(first.nlabels == 1);
             r.owner = first;
@@ -339,7 +342,7 @@ static void faithful(const unsigned maxRR, const unsigned maxLabels, const unsig
             if (r.targetMode == 0) { r.target = symbolicName(maxLabels, maxLabelLen, "tlabels"); r.wireLen = encodeName(r.wire, r.target, r.target.nlabels, 0); }
             else if (r.targetMode == 1) { r.target = qname; r.wireLen = encodeName(r.wire, r.target, 0, qnameAt); }
             else {
-                vf_assume(qname.nlabels >= 1);   // KNOWN-FINDING candidate: see above (label + pointer to a root name => trailing dot)
+                if (qname.nlabels == 0) rootPointer = true;   // KNOWN FINDING C37-root-pointer-trailing-dot, see above
                 RefName first = symbolicName(1, maxLabelLen, "tlabels");
                 vf_assume(first.nlabels == 1);
                 r.target = first;
@@ -357,6 +360,8 @@ static void faithful(const unsigned maxRR, const unsigned maxLabels, const unsig
     // optional trailing bytes (authority/additional sections are not decoded): must not disturb anything
     const unsigned extra = (unsigned)vf_concretize(vf_range(0, maxExtra, "extra"));
     for (unsigned i = 0; i < extra; ++i) b[n++] = vf_nondet_u8("extrabyte");
+
+    vf_assume(rootPointer == onlyRootPointer);       // the known-finding class: only in c37_known_root_pointer, nowhere else
 
     char *dgram = (char *)malloc(n);
     memcpy(dgram, b, n);
@@ -402,6 +407,9 @@ static void faithful(const unsigned maxRR, const unsigned maxLabels, const unsig
     free(dgram);
     WITNESS_POINT();
 }
+// KNOWN FINDING (known_findings.json, C37-root-pointer-trailing-dot): same encoder and same strict assertions, restricted to
+// messages in which an owner or PTR/CNAME target name is <label> + compression pointer to a root (empty) question name
+extern "C" void c37_known_root_pointer(void) { onlyRootPointer = true; faithful(1, 2, 2, 1, 0); }
 #ifdef VF_THOROUGH
 extern "C" void c37_faithful(void) { faithful(1, 2, 2, 2, 1); }
 extern "C" void c37_faithful2(void) { faithful(2, 2, 1, 1, 0); }
